@@ -60,6 +60,8 @@ type prover struct {
 	okMemo      map[goalKey]int64
 	cycHits     int
 	chain       int
+	phiSteps    int
+	inProgPhi   map[goalKey]int
 	budget      int
 	axioms      []fact                  // caller-supplied (class P parameter ranges etc.)
 	lenOf       map[ssa.Value]ssa.Value // canonical len-call value -> operand
@@ -507,12 +509,18 @@ func (p *prover) prove1(a, b term, c int64, blk *ssa.BasicBlock, depth int) bool
 	}
 	key := goalKey{a, b, blk}
 	if c0, ok := p.inProg[key]; ok {
-		// cycle: sound to assume when the bound did not get tighter around the loop
+		// cycle. Sound to assume only for a genuine induction: the goal was reached again through at least
+		// one phi (a loop-carried value) and the bound did not get tighter on the way round. A cycle that
+		// merely walks facts and definitions in a circle proves nothing.
 		p.cycHits++
-		return c >= c0
+		return p.phiSteps > p.inProgPhi[key] && c >= c0
 	}
 	p.inProg[key] = c
-	defer delete(p.inProg, key)
+	if p.inProgPhi == nil {
+		p.inProgPhi = map[goalKey]int{}
+	}
+	p.inProgPhi[key] = p.phiSteps
+	defer func() { delete(p.inProg, key); delete(p.inProgPhi, key) }()
 
 	// --- facts that dominate the use
 	for _, f := range append(p.facts[blk], p.axioms...) {
@@ -869,6 +877,8 @@ func (p *prover) proveDefUpper(a, b term, c int64, blk *ssa.BasicBlock, depth in
 	switch x := a.v.(type) {
 	case *ssa.Phi:
 		// on the path through edge i every fact that dominates the i-th predecessor holds
+		p.phiSteps++
+		defer func() { p.phiSteps-- }()
 		for i, e := range x.Edges {
 			te, oe := p.norm(e)
 			if !p.prove(te, b, c-oe, p.edgeBlock(x, i, blk), depth+1) {
@@ -955,6 +965,12 @@ func (p *prover) proveDefUpper(a, b term, c int64, blk *ssa.BasicBlock, depth in
 			}
 		}
 	}
+	// integers assembled from bytes: at most as many bits as were put in
+	if mb := maxBits(a.v, 0); mb > 0 && mb < 62 {
+		if p.prove(zeroT, b, c-(int64(1)<<mb-1), blk, depth+1) {
+			return true
+		}
+	}
 	// type range: unsigned N-bit <= 2^N - 1
 	if isInt && uns && bits < 63 {
 		if p.prove(zeroT, b, c-(1<<bits-1), blk, depth+1) {
@@ -975,6 +991,8 @@ func (p *prover) proveDefLower(a, b term, c int64, blk *ssa.BasicBlock, depth in
 	_ = bits
 	switch x := b.v.(type) {
 	case *ssa.Phi:
+		p.phiSteps++
+		defer func() { p.phiSteps-- }()
 		for i, e := range x.Edges {
 			te, oe := p.norm(e)
 			if !p.prove(a, te, c+oe, p.edgeBlock(x, i, blk), depth+1) {
@@ -1569,6 +1587,12 @@ func inputContainer(v ssa.Value) bool {
 				}
 			}
 			return false
+		case *ssa.Call:
+			// the content of a bytes.Buffer that was filled from the wire
+			if co := calleeOfCommon(x.Common()); co != nil && co.FullName() == "(*bytes.Buffer).Bytes" {
+				return true
+			}
+			return false
 		default:
 			// struct fields and call results carry invariants established where they were built
 			// (type-level invariants are outside this prover: stated limitation)
@@ -1615,4 +1639,102 @@ func descr(t term) string {
 		s = s[:60]
 	}
 	return s
+}
+
+// maxBits: upper bound on the number of significant bits of a non-negative value built from byte loads,
+// shifts by constants, ors and zero-extending conversions (0 = unknown).
+func maxBits(v ssa.Value, depth int) int {
+	if depth > 12 {
+		return 0
+	}
+	if isByteLoad(v) {
+		return 8
+	}
+	switch x := v.(type) {
+	case *ssa.Convert:
+		fb, fu, ok := basicInfo(x.X.Type())
+		if !ok {
+			return 0
+		}
+		if in := maxBits(x.X, depth+1); in > 0 {
+			return in
+		}
+		if fu && fb < 64 {
+			return fb
+		}
+	case *ssa.BinOp:
+		switch x.Op {
+		case token.SHL:
+			if k, ok := intConst(x.Y); ok && k >= 0 && k < 64 {
+				if in := maxBits(x.X, depth+1); in > 0 {
+					return in + int(k)
+				}
+			}
+		case token.OR, token.XOR:
+			l, r := maxBits(x.X, depth+1), maxBits(x.Y, depth+1)
+			if l > 0 && r > 0 {
+				if l > r {
+					return l
+				}
+				return r
+			}
+		}
+	case *ssa.Call, *ssa.Extract:
+		// result of a function whose every return is such a value
+		var call *ssa.Call
+		idx := 0
+		if c, ok := x.(*ssa.Call); ok {
+			call = c
+		} else {
+			ex := x.(*ssa.Extract)
+			call, _ = ex.Tuple.(*ssa.Call)
+			idx = ex.Index
+		}
+		if call == nil {
+			return 0
+		}
+		callee := call.Common().StaticCallee()
+		if callee == nil || callee.Blocks == nil {
+			return 0
+		}
+		best := 0
+		for _, ret := range returnsOf(callee) {
+			if isRecoverBlock(ret.Block()) || idx >= len(ret.Results) {
+				continue
+			}
+			b := maxBits(retValue(ret, idx), depth+1)
+			if b == 0 {
+				return 0
+			}
+			if b > best {
+				best = b
+			}
+		}
+		return best
+	}
+	return 0
+}
+
+// UpperBounded: the value has some finite bound that the other side does not control alone: a constant up to
+// 64 MiB, the length of something already held, or the Len() of a reader/buffer.
+func (p *prover) UpperBounded(n ssa.Value, blk *ssa.BasicBlock) (bool, string) {
+	if p.Prove(n, 0, nil, 1<<26, blk) {
+		return true, "<= 64 MiB constant bound"
+	}
+	tn, on := p.norm(n)
+	for _, f := range p.facts[blk] {
+		if f.x != tn || f.y.v == nil {
+			continue
+		}
+		_ = on
+		if f.y.isLen {
+			return true, "<= len(" + f.y.v.Name() + ")"
+		}
+		if c, ok := f.y.v.(*ssa.Call); ok {
+			if co := calleeOfCommon(c.Common()); co != nil && (co.Name() == "Len" || co.Name() == "Size") {
+				return true, "<= " + co.Name() + "() of the source"
+			}
+		}
+	}
+	return false, ""
 }
